@@ -97,6 +97,18 @@ type I interface{ Get() *int }
 
 func (t *T) Get() *int { return t.P }
 func G0()              {}
+func MkT(n int) T {
+	if n > 0 {
+		return T{P: new(int), I: 1, S: []int{1}}
+	}
+	return T{}
+}
+func MkArr(n int) [2]*int {
+	if n > 0 {
+		return [2]*int{new(int), nil}
+	}
+	return [2]*int{}
+}
 func MkNil() *int      { return nil }
 func MkNew() *int      { return new(int) }
 
@@ -493,6 +505,8 @@ class Gen:
             F("slicedata", lambda: "unsafe.SliceData(%s)" % e("sl", d + 1)),
             F("global-load", lambda: self.q("GP")),
             F("global-addr-load", lambda: "*(&%s)" % self.q("GP")),
+            F("field-value", lambda: "%s(n).P" % self.q("MkT")),
+            F("index-value", lambda: "%s(n)[%s]" % (self.q("MkArr"), self.r.choice(["0", "1"]))),
         ]
 
     def e_ppint(self, d):
@@ -543,6 +557,7 @@ class Gen:
             F("unsafe-slice", lambda: "unsafe.Slice(%s, 0)" % e("pint", d + 1)),
             F("unsafe-slice", lambda: "unsafe.Slice(%s, 1)" % e("pint", d + 1)),
             F("typeassert", lambda: "%s.([]int)" % self.holding("any", "sl", d)),
+            F("field-value", lambda: "%s(n).S" % self.q("MkT")),
             F("global-load", lambda: self.q("GS")),
         ]
 
@@ -609,6 +624,7 @@ class Gen:
             F("load-iface", lambda: "*%s" % e("pany", d + 1)),
             F("load-iface", lambda: "*%s" % e("pany", d + 1)),
             F("global-load", lambda: self.q("GA")),
+            F("field-value", lambda: "%s(n).I" % self.q("MkT")),
             F("recover", lambda: "recover()"),
         ]
 
@@ -861,7 +877,19 @@ class Gen:
 
     def use_stmt(self, out, ind):
         r = self.r
-        u = r.below(9)
+        u = r.below(11)
+        if u == 9:
+            self.feat("s2a")
+            out.append("%s_ = [2]int(%s)" % (ind, self.expr("sl", 1)))
+            return False
+        if u == 10:
+            self.feat("s2a0")
+            self.nonil -= 1
+            try:
+                out.append("%s_ = [0]int(%s)" % (ind, self.expr("sl", 1)))
+            finally:
+                self.nonil += 1
+            return False
         if u == 0:
             self.feat("deref")
             out.append("%s_ = *%s" % (ind, self.expr("pint", 1)))
@@ -1442,9 +1470,9 @@ def func_from_record(e):
 def plan(ctx):
     """[(module tag, generator seed, number of generated functions, with corpus, vectors per function)]"""
     if ctx.quick:
-        return [("m0", ctx.seed * 1000 + 0, 90, True, 10), ("m1", ctx.seed * 1000 + 1, 110, False, 10),
-                ("m2", ctx.seed * 1000 + 2, 110, False, 10)]
-    return [("m%d" % k, ctx.seed * 1000 + k, 260, k == 0, 16) for k in range(14)]
+        return [("m0", ctx.seed * 1000 + 0, 70, True, 10), ("m1", ctx.seed * 1000 + 1, 100, False, 10),
+                ("m2", ctx.seed * 1000 + 2, 100, False, 10)]
+    return [("m%d" % k, ctx.seed * 1000 + k, 240, k == 0, 16) for k in range(12)]
 
 
 def run_plan(ctx, probe, staticcheck, items, workers):
@@ -1762,9 +1790,26 @@ def run(ctx):
 
 META = {
     "level": "proof",
-    "technique": "Lean 4 soundness proof of a model of the nilness transfer rules against a nondeterministic concrete semantics of the IR subset; "
-                 "executable correspondence (model recomputes the real facts from IR dumps, certified post-fixpoints) + execution oracle on compiled code",
-    "text": "TODO",
-    "note": "TODO",
+    "technique": "Lean 4 soundness proof (abstract interpretation) of a model of analysis/facts/nilness against a nondeterministic "
+                 "concrete semantics of the IR subset; executable correspondence on IR dumps with a certified post-fixpoint per function; "
+                 "execution oracle on the compiled generated programs",
+    "text": "Proved in Lean over the model, for all functions/programs of the modelled IR subset and all their terminating executions: "
+            "every transfer rule of nilness.go's processBlock (28 instruction kinds, handleReturnValue, nil-comparison refinement, parallel phis) "
+            "is sound (transfer_sound, phis_sound, edge_sound); every post-fixpoint of the flow equations describes every reachable state "
+            "(path_sound); hence, interprocedurally and with recursion, a result classified NeverNil/AlwaysNil (outer, and inner for interfaces) "
+            "is non-nil/nil in every normally returning execution (result_sound, result_sound_never/_always), and a comparison SA4023 reports "
+            "can never succeed (sa4023_sound). Tie, checked on every run: harness/cmd/c15probe runs the real nilness.Analysis and SA4023 through "
+            "the real lintcmd runner on generated two-package modules and dumps each function's IR; the compiled Lean model recomputes impl's "
+            "value per function in the order of run/impl, re-checks that its solution is a post-fixpoint of a well-formed function (the "
+            "hypotheses of result_sound) and the check demands Result.Nilness equal to or coarser than the model (describes_mono); SA4023 "
+            "reports must imply Outer=NeverNil. Explored, not proved: that the Lean semantics over-approximates Go (tested by compiling and "
+            "executing every generated function on input vectors: the oracle), that real functions outside the generator behave like the "
+            "model (closures, generics, bound-method wrappers are outside the model), and the dense.Forward solver itself (C13; here only "
+            "its result is certified).",
+    "note": "Trusted: Lean kernel (axioms propext/Classical.choice/Quot.sound), the compiled c15driver, harness/cmd/c15probe (IR dump, mirrors "
+            "three type predicates of nilness.go: checkBound, allNonZero, fromInteger), the Go toolchain that compiles and runs the oracle "
+            "programs, Sem.lean as an over-approximation of Go on nil-ness (no memory model; SSA and TypeSwitch/Extract contracts of go/ir "
+            "assumed, cf. C02). Six genuine soundness defects of nilness.go were reproduced by the oracle and repaired by fix: commits "
+            "6315b9e 3cc29f3 eaf75cc 7d4adbb 6abe606 f462b28; the model describes the repaired code.",
     "design_ref": "DESIGN.md section 5, C15",
 }
